@@ -1,6 +1,6 @@
 // Generic accessor sweep: describe_as<I>(node) calls EVERY accessor of interface I (primitives, the virtual
 // extras, and the common accessors of Expr / Classic / Type / Directive / Stmt / Decl) and renders the results into
-// a fingerprint string.  Included by zoo/zoo.cpp ONLY (it defines non-inline functions).  Used by C05 (stability), C14 (every accessor returns or throws logic_error), C20 (traces).
+// a fingerprint string.  Templates and inline functions only; the dispatcher (observe) lives in zoo/zoo.cpp.  Used by C05 (stability), C14 (every accessor returns or throws logic_error), C20 (traces).
 #ifndef VERIF_ZOO_DESCRIBE_HPP
 #define VERIF_ZOO_DESCRIBE_HPP
 
@@ -16,13 +16,6 @@ namespace zoo {
       }
       if (w.size() > 24) s += "..+" + std::to_string(w.size() - 24);
       return s;
-   }
-
-   std::string Ctx::name_of(const ipr::Node& n)
-   {
-      auto s = namer.of(static_cast<const void*>(&n));
-      if (not s.empty()) return s;
-      return "anon" + std::to_string(int(n.category));
    }
 
    template<class T> std::string render(Ctx& c, const T& v);
@@ -198,30 +191,6 @@ namespace zoo {
       return o;
    }
 #undef VF_F
-
-   // Dispatch on the dynamic interface through accept().
-   struct Describer : ipr::Visitor {
-      Ctx& c;
-      std::string out;
-      explicit Describer(Ctx& ctx) : c{ ctx } { }
-#define X(N) void visit(const ipr::N& n) override { out = describe_as<ipr::N>(c, n); }
-      VF_CATEGORIES(X)
-#undef X
-      void visit(const ipr::Node& n) override { out = "abstract-sink:Node cat=" + std::to_string(int(n.category)); }
-      void visit(const ipr::Expr& n) override { out = "abstract-sink:Expr cat=" + std::to_string(int(n.category)); }
-      void visit(const ipr::Name& n) override { out = "abstract-sink:Name cat=" + std::to_string(int(n.category)); }
-      void visit(const ipr::Type& n) override { out = "abstract-sink:Type cat=" + std::to_string(int(n.category)); }
-      void visit(const ipr::Directive& n) override { out = "abstract-sink:Directive cat=" + std::to_string(int(n.category)); }
-      void visit(const ipr::Stmt& n) override { out = "abstract-sink:Stmt cat=" + std::to_string(int(n.category)); }
-      void visit(const ipr::Decl& n) override { out = "abstract-sink:Decl cat=" + std::to_string(int(n.category)); }
-   };
-
-   std::string observe(Ctx& c, const ipr::Node& n)
-   {
-      Describer d{ c };
-      n.accept(d);
-      return d.out;
-   }
 }
 
 #endif
